@@ -4,6 +4,20 @@ TRUSTED = ("CPython ast/symtable; the analyzer's CFG construction and resolution
            "self-test); reference tables written from the property statement; no value-level semantics are decided")
 
 CLAIMS = {
+    "C05": {
+        "text": "Error-discipline analysis on all paths of the current source: every may-raise statement of each engine "
+                "thread target lies in a catch-all region whose handler emits NonFatalError (lexical coverage + CFG "
+                "must-pass); value-set propagation of the status variable through every except arm of run_test and of the "
+                "stateful loop shows no error arm can end in SUCCESS/SKIP; collected errors are always emitted; on_failure "
+                "records and collects on all paths; run_checks converts Failure/AssertionError/FailureGroup; status "
+                "folding is a guarded maximum; exit_code is only ever set to 1, is set for NonFatalError and failed "
+                "phases, and _execute exits with it; every exception class swallowed by add_examples sets a mark that "
+                "run_test reports; CLI options reach ExecutionConfig. Not decided: user handlers that swallow, "
+                "Hypothesis-internal conversions, errors raised while reporting an error (second-order faults).",
+        "design_ref": "DESIGN.md §4 C05",
+        "note": TRUSTED + "; exception-class hierarchy table for third-party classes (DESIGN Appendix B)",
+        "technique": "CFG with exception edges: catch-all coverage, must-pass-through, value-set dataflow of status variables, plumbing tables",
+    },
     "C19": {
         "text": "Decides, on all paths of the current source, the structural clauses behind 'extensions apply exactly where "
                 "their own filters say': closure-cell ownership of the per-registration FilterSet in to_filterable_hook "
